@@ -473,6 +473,14 @@ func (u *Unit) binop(st *State, op token.Token, x, y Val, xt, rt types.Type, rea
 		if k, ok := constInt(x); ok && k >= 0 && (k+1)&k == 0 {
 			return res(app("Int", "mod", y.T, bigLit(fmt.Sprint(k+1))))
 		}
+		// a single-bit mask 2^b: ((v mod 2^(b+1)) div 2^b) * 2^b  (SMT mod is non-negative, so this is the
+		// two's complement bit also for negative v)
+		for _, pr := range [][2]Val{{x, y}, {y, x}} {
+			if k, ok := constInt(pr[1]); ok && k > 0 && k&(k-1) == 0 && k < (1<<62) {
+				bit := app("Int", "div", app("Int", "mod", pr[0].T, bigLit(fmt.Sprint(2*k))), bigLit(fmt.Sprint(k)))
+				return res(app("Int", "*", bit, bigLit(fmt.Sprint(k))))
+			}
+		}
 		return u.bitop(st, "bitand", x, y, rt)
 	case token.OR:
 		return u.bitop(st, "bitor", x, y, rt)
